@@ -164,7 +164,7 @@ def compare_program(prog, runs, cfg_by_name):
 
 def run(tier, seed):
   ck = common.Check(PID, tier, seed, rule=RULE)
-  nprog, bsize = (40, 8) if tier == "quick" else (320, 8)
+  nprog, bsize = (40, 8) if tier == "quick" else (160, 8)
   nprog = int(os.environ.get("VERIF_C04_NPROG", nprog))   # development aid only
   cfgs = configs(tier)
   cfg_by_name = {c["name"]: c for c in cfgs}
